@@ -174,6 +174,17 @@ func isoShapes(scratch string, rng *rand.Rand, n int) []*isoShape {
 		c.Entries = append(c.Entries, Entry{Type: "file", Src: "src/sub", Dst: "/usr/share/isopkg"})
 	}, "")
 	mk("compressors-xz", func(c *Cfg, n *[]Node) { c.DebCompression, c.RpmCompression = "xz", "xz" }, "")
+	mk("no-maintainer", func(c *Cfg, n *[]Node) { c.Maintainer = "" }, "")
+	mk("duplicate-relations", func(c *Cfg, n *[]Node) {
+		c.Depends = []string{"bash", "bash", "zlib", "zlib"}
+		c.Provides, c.Conflicts, c.Replaces = []string{"p", "p"}, []string{"c", "c", "d"}, []string{"r", "r"}
+		c.Recommends, c.Suggests = []string{"x", "x"}, []string{"s", "s", "s"}
+	}, "")
+	mk("one-format-fails", func(c *Cfg, n *[]Node) {
+		// the glob collides with an entry addressed to rpm only: validate and package(rpm) fail, every other packaging must be unaffected
+		c.Entries = []Entry{{Type: "file", Src: "src/sub/data.txt", Dst: "/opt/demo/data.txt", Tag: "rpm"}, {Type: "file", Src: "src/sub/*.txt", Dst: "/opt/demo"},
+			{Type: "file", Src: "src/bin", Dst: "/usr/bin/tool"}}
+	}, "")
 	mk("arch-translation", func(c *Cfg, n *[]Node) { c.Arch = "arm6"; c.Release = "" }, "")
 	for i := 0; len(out) < n; i++ {
 		pc := genPkgCase(rng, 1000+i, "payload", scratch, "quick")
@@ -288,7 +299,7 @@ func permutations(xs []string) [][]string {
 func famIso(tr *Trace, scratch string, seed int64, tier string, workers int, behaviours string) M {
 	os.Unsetenv("SOURCE_DATE_EPOCH")
 	rng := rand.New(rand.NewSource(seed + 99))
-	nshapes := 12
+	nshapes := 15
 	maxLen := 2
 	if tier == "thorough" {
 		nshapes, maxLen = 40, 3
@@ -420,7 +431,7 @@ func famIso(tr *Trace, scratch string, seed int64, tier string, workers int, beh
 func famConc(tr *Trace, scratch string, seed int64, tier string) M {
 	os.Unsetenv("SOURCE_DATE_EPOCH")
 	rng := rand.New(rand.NewSource(seed + 7))
-	nshapes, iters := 10, 12
+	nshapes, iters := 13, 12
 	if tier == "thorough" {
 		nshapes, iters = 30, 120
 	}
@@ -428,21 +439,20 @@ func famConc(tr *Trace, scratch string, seed int64, tier string) M {
 	sets := [][]string{{"deb", "rpm"}, {"apk", "archlinux"}, {"deb", "ipk"}, {"rpm", "apk", "ipk"}, allFormats, {"deb", "deb"}, {"rpm", "rpm", "archlinux"}}
 	id := 0
 	runs := 0
+	// Nothing is packaged sequentially before the first concurrent round: state that the code initialises lazily on first
+	// use must be initialised race-free too.  Outputs are compared with the sequential builds made afterwards.
+	type concRes struct {
+		s    *isoShape
+		set  []string
+		mode string
+		outs [][]string
+	}
+	var all []*concRes
 	for _, s := range shapes {
-		seq := map[string]string{}
-		for _, f := range allFormats {
-			h, e := freshPackage(s.yaml, f)
-			if e != "" {
-				h = "err"
-			}
-			seq[f] = h
-		}
 		for _, set := range sets {
 			for _, mode := range []string{"shared-config", "independent-configs"} {
-				id++
-				mismatches := 0
-				total := 0
-				for _, procs := range []int{1, 2, 4, 16} {
+				cr := &concRes{s: s, set: set, mode: mode}
+				for _, procs := range []int{16, 4, 2, 1} {
 					old := runtime.GOMAXPROCS(procs)
 					for it := 0; it < iters/4+1; it++ {
 						var shared nfpm.Config
@@ -487,24 +497,44 @@ func famConc(tr *Trace, scratch string, seed int64, tier string) M {
 						}
 						close(start)
 						wg.Wait()
-						for gi, f := range set {
-							total++
-							if res[gi] != seq[f] {
-								mismatches++
-							}
-						}
+						cr.outs = append(cr.outs, res)
 						runs++
 					}
 					runtime.GOMAXPROCS(old)
 				}
-				fm := make([]any, 0)
-				for _, f := range set {
-					fm = append(fm, f)
-				}
-				tr.Emit(id, []M{{"ev": "case", "id": id, "fam": "conc", "shape": s.name},
-					{"ev": "conc", "shape": s.name, "mode": mode, "formats": fm, "builds": total, "mismatches": mismatches}, {"ev": "endcase"}})
+				all = append(all, cr)
 			}
 		}
+	}
+	seqOf := map[string]map[string]string{}
+	for _, s := range shapes {
+		seq := map[string]string{}
+		for _, f := range allFormats {
+			h, e := freshPackage(s.yaml, f)
+			if e != "" {
+				h = "err"
+			}
+			seq[f] = h
+		}
+		seqOf[s.name] = seq
+	}
+	for _, cr := range all {
+		id++
+		mismatches, total := 0, 0
+		for _, res := range cr.outs {
+			for gi, f := range cr.set {
+				total++
+				if res[gi] != seqOf[cr.s.name][f] {
+					mismatches++
+				}
+			}
+		}
+		fm := make([]any, 0)
+		for _, f := range cr.set {
+			fm = append(fm, f)
+		}
+		tr.Emit(id, []M{{"ev": "case", "id": id, "fam": "conc", "shape": cr.s.name},
+			{"ev": "conc", "shape": cr.s.name, "mode": cr.mode, "formats": fm, "builds": total, "mismatches": mismatches}, {"ev": "endcase"}})
 	}
 	return M{"cases": id, "concurrent_rounds": runs}
 }
